@@ -233,9 +233,9 @@ def c03d(F, R):
     f = F.fn(nd[0])
     found = False
     for n in walk(f["hir"]["value"]):
-        if n.get("k") == "Assign" and ekey(n["l"]) == "prev":
+        if n.get("k") == "Assign" and peel(n["l"]).get("res_kind") == "Local":
             r = peel(n["r"])
-            if r.get("k") == "If":
+            if r.get("k") == "If" and any(short(x.get("res") or "") == "None" for x in walk(r, pats=False) if x.get("k") == "Path"):
                 found = True
                 names = sorted(m["name"] for m in walk(r["cond"]) if m.get("k") == "MethodCall")
                 ors = [m for m in walk(r["cond"]) if m.get("k") == "Binary"]
@@ -364,7 +364,11 @@ def c01b(F, R):
     setters = fact_setters(F)
     set_out = [p for p, fld in setters.items() if fld == "reg_values_out"][0]
     done = False
-    for b, i in blocks_with_let(f["hir"]["value"], "out_reg_n"):
+    pubs = [n for n in walk(f["hir"]["value"], pats=False) if n.get("k") in ("MethodCall", "Call") and callee_of(n) == set_out]
+    if not pubs:
+        raise Anchor("set_reg_values_out is not called in AvailableValuePass::run")
+    OUT = ekey(call_recv_args(pubs[0])[1][0])
+    for b, i in blocks_with_let(f["hir"]["value"], OUT):
         init = b["stmts"][i].get("init") or {}
         if not mentions_call(init, "reg_values_in"):
             continue
@@ -382,14 +386,14 @@ def c01b(F, R):
             e = s.get("e") or {}
             while e.get("k") in ("DropTemps", "Use"):
                 e = e["e"]
-            if e.get("k") == "AssignOp" and e["op"] == "SubAssign" and ekey(e["l"]) == "out_reg_n" and mentions_call(e["r"], "kill_reg"):
+            if e.get("k") == "AssignOp" and e["op"] == "SubAssign" and ekey(e["l"]) == OUT and mentions_call(e["r"], "kill_reg"):
                 kill = True
             if e.get("k") == "If" and mentions_call(e["cond"], "calls_to") and mentions_call(e["cond"], "is_some"):
                 for m in walk(e["then"]):
-                    if m.get("k") == "AssignOp" and m["op"] == "SubAssign" and ekey(m["l"]) == "out_reg_n" and mentions_call(m["r"], "return_addr_set"):
+                    if m.get("k") == "AssignOp" and m["op"] == "SubAssign" and ekey(m["l"]) == OUT and mentions_call(m["r"], "return_addr_set"):
                         ret = True
         if kill:
-            R.ok("kill", detail="out_reg_n -= node.kill_reg() unconditionally before set_reg_values_out", where=loc(b["stmts"][i]))
+            R.ok("kill", detail=f"{OUT} -= node.kill_reg() unconditionally before set_reg_values_out", where=loc(b["stmts"][i]))
         else:
             R.bad("kill", "out[n] is published without removing the instruction's kill set: a claim about a register survives its overwrite", loc(b["stmts"][pub]))
         if ret:
@@ -397,7 +401,7 @@ def c01b(F, R):
         else:
             R.bad("kill-ra-at-call", "ra is not removed from out[n] at call sites: `ra` keeps its pre-call claim after `jal`", loc(b["stmts"][pub]))
     if not done:
-        R.bad("shape", "UNEXTRACTABLE: cannot find `let out_reg_n = node.reg_values_in()` ... `set_reg_values_out(out_reg_n)` in one block", f["sp"])
+        R.bad("shape", f"UNEXTRACTABLE: cannot find `let {OUT} = node.reg_values_in()` ... `set_reg_values_out({OUT})` in one block", f["sp"])
     # kill_reg / gen_reg shape
     kp = F.method(PNODE, "kill_reg", trait="HasGenKillInfo")
     k = F.fn(kp)
@@ -571,12 +575,21 @@ def c02d(F, R):
     blk = branches.get("is_ecall")
     if blk is not None:
         okl = False
+        setters = fact_setters(F)
+        set_li = [p for p, fld in setters.items() if fld == "live_in"][0]
+        li_calls = [n for n in walk(blk, pats=False) if n.get("k") in ("MethodCall", "Call") and callee_of(n) == set_li]
+        LI = ekey(call_recv_args(li_calls[0])[1][0]) if li_calls else None
+        ARGS = None
+        for s in walk(blk, pats=False):
+            if s.get("k") == "Let" and s["pat"].get("k") == "PTuple" and mentions_call(s.get("init") or {}, "known_ecall_signature"):
+                first = s["pat"]["pats"][0]
+                ARGS = first.get("name") if first.get("k") == "PBinding" else None
         for s in walk(blk):
-            if s.get("k") == "Let" and s["pat"].get("k") == "PBinding" and s["pat"]["name"] == "live_in":
+            if s.get("k") == "Let" and s["pat"].get("k") == "PBinding" and s["pat"]["name"] == LI:
                 e = s.get("init") or {}
                 ors = [b for b in walk(e) if b.get("k") == "Binary" and b["op"] == "BitOr"]
                 subs = [b for b in walk(e) if b.get("k") == "Binary" and b["op"] == "Sub" and mentions_call(b["a"], "live_out") and mentions_call(b["b"], "caller_saved_set")]
-                okl = len(ors) >= 2 and len(subs) == 1 and mentions_call(e, "ecall_always_argument_set") and any(p.get("k") == "Path" and p.get("res") == "args" for p in walk(e))
+                okl = len(ors) >= 2 and len(subs) == 1 and mentions_call(e, "ecall_always_argument_set") and ARGS is not None and any(p.get("k") == "Path" and p.get("res") == ARGS for p in walk(e))
         if okl:
             R.ok("ecall-live-in", detail="live_in = (live_out - caller_saved) | {a7} | signature args")
         else:
@@ -589,8 +602,10 @@ def c02e(F, R):
     ref = json.load(open(os.path.join(VERIF, "reference", "rars_ecalls.json")))
     from .regs import to_num_table
     tn, _ = to_num_table(F)
-    p = "riscv_analysis::cfg::ecall::environment_in_outs"
-    f = F.fn(p)
+    cands = [q for q in F.fns if q.endswith("::environment_in_outs")]
+    if len(cands) != 1:
+        raise Anchor(f"environment_in_outs: {len(cands)} candidates")
+    f = F.fn(cands[0])
     best = None
     for m in find_matches(f["hir"]["value"]):
         if any(isinstance(k, int) for k, _ in arm_table(m)):
@@ -652,16 +667,16 @@ def c11a(F, R):
     for i, s in enumerate(stmts):
         e = s.get("e") or {}
         for n in walk(e):
-            if n.get("k") == "MethodCall" and n["name"] == "push" and ekey(n["recv"]) == "instructions" and ekey(n["args"][0]) == var and push is None and is_top(e, n):
+            if n.get("k") == "MethodCall" and n["name"] == "push" and peel(n["recv"]).get("res_kind") == "Local" and ekey(n["args"][0]) == var and push is None and is_top(e, n):
                 push = i
             if n.get("k") in ("MethodCall", "Call") and callee_of(n) == nins and tag is None and is_top(e, n):
                 recv, args = call_recv_args(n)
                 if ekey(recv) == var:
                     tag = i
     if push is not None and tag is not None:
-        R.ok("push-and-tag", detail="instructions.push(node) and node.insert_function(func) are both unconditional statements of the walk body", where=loc(stmts[push]))
+        R.ok("push-and-tag", detail="<list>.push(node) and node.insert_function(func) are both unconditional statements of the walk body", where=loc(stmts[push]))
     else:
-        R.bad("push-and-tag", f"unconditional push to `instructions`: {push is not None}; unconditional insert_function: {tag is not None} — the per-function node list and the per-node function list diverge", loc(body))
+        R.bad("push-and-tag", f"unconditional push of the visited node to the instruction list: {push is not None}; unconditional insert_function: {tag is not None} — the per-function node list and the per-node function list diverge", loc(body))
 
 
 def is_top(stmt_expr, n):
@@ -726,29 +741,39 @@ def c11c(F, R):
         raise Anchor("Cfg::new_with_predefined_call_names not found")
     f = F.fn(np_[0])
     lets = {s["pat"]["name"]: s for s in walk(f["hir"]["value"]) if s.get("k") == "Let" and s["pat"].get("k") == "PBinding"}
-    cn = lets.get("call_names")
-    if cn is None:
-        R.bad("call_names", "UNEXTRACTABLE: no `call_names` binding", f["sp"])
+    fe = [n for n in walk(f["hir"]["value"], pats=False) if n.get("k") == "Call" and short(callee_of(n) or "") == "new_func_entry"]
+    guard = None
+    for n in walk(f["hir"]["value"], pats=False):
+        if n.get("k") == "If" and fe and any(x is fe[0] for x in walk(n["then"], pats=False)):
+            inter = [m for m in walk(n["cond"], pats=False) if m.get("k") == "MethodCall" and m["name"] == "intersection"]
+            if inter and mentions_call(n["cond"], "is_some"):
+                guard = (n, inter[0])
+    if guard is None:
+        R.bad("func-entry-guard", "function-entry insertion is no longer guarded by `<current labels> ∩ <call names> ≠ ∅`", f["sp"])
     else:
-        srcs = {n["name"] for n in walk(cn["init"]) if n.get("k") == "MethodCall"} | {short(callee_of(n) or "") for n in walk(cn["init"]) if n.get("k") == "Call"}
-        params = {x.get("name") for x in f["hir"]["params"]}
-        locals_used = {n["res"] for n in walk(cn["init"]) if n.get("k") == "Path" and n.get("res_kind") == "Local"}
-        if "call_names" in srcs and (locals_used - {"set", "new_set", "old_nodes"}) <= params:
-            R.ok("call_names", detail="call_names = old_nodes.call_names() ∪ predefined names")
+        n, inter = guard
+        CN = ekey(inter["args"][0])
+        CL = ekey(inter["recv"]).split(".")[0]
+        cn = lets.get(CN)
+        if cn is None:
+            R.bad("call_names", f"UNEXTRACTABLE: no binding for the call-name set `{CN}`", f["sp"])
         else:
-            R.bad("call_names", f"call_names is built from {sorted(srcs)} / {sorted(locals_used)}", loc(cn))
-    fe = [n for n in walk(f["hir"]["value"]) if n.get("k") == "Call" and short(callee_of(n) or "") == "new_func_entry"]
-    guarded = False
-    for n in walk(f["hir"]["value"]):
-        if n.get("k") == "If" and any(x is fe[0] for x in walk(n["then"])) if fe else False:
-            c = n["cond"]
-            if mentions_call(c, "intersection") and any(p.get("k") == "Path" and p.get("res") == "call_names" for p in walk(c)) and mentions_call(c, "is_some") \
-                    and any(p.get("k") == "Path" and p.get("res") == "current_labels" for p in walk(c)):
-                guarded = True
-    if fe and guarded:
-        R.ok("func-entry-guard", detail="FuncEntry inserted iff current_labels ∩ call_names is non-empty")
-    else:
-        R.bad("func-entry-guard", "function-entry insertion is no longer guarded by `current_labels ∩ call_names ≠ ∅`", f["sp"])
+            callees = {short(callee_of(x) or "") for x in walk(cn["init"], pats=False) if x.get("k") in ("MethodCall", "Call")}
+            params = {x.get("name") for x in f["hir"]["params"]}
+            inner = {x["pat"]["name"] for x in walk(cn["init"], pats=False) if x.get("k") == "Let" and x["pat"].get("k") == "PBinding"}
+            inner |= {b["name"] for x in walk(cn["init"]) if x.get("k") == "LetExpr" for b in walk(x["pat"]) if b.get("k") == "PBinding"}
+            locals_used = {x["res"] for x in walk(cn["init"], pats=False) if x.get("k") == "Path" and x.get("res_kind") == "Local"}
+            if "call_names" in callees and (locals_used - inner) <= params:
+                R.ok("call_names", detail=f"{CN} = <nodes>.call_names() ∪ predefined names")
+            else:
+                R.bad("call_names", f"the call-name set `{CN}` is built from {sorted(callees)} / locals {sorted(locals_used - inner - params)}", loc(cn))
+        # the labels set must be the one fed from Label nodes and cleared after use
+        fed = any(m.get("k") == "MethodCall" and m["name"] == "insert" and ekey(m["recv"]) == CL for m in walk(f["hir"]["value"], pats=False))
+        cleared = any(m.get("k") == "MethodCall" and m["name"] == "clear" and ekey(m["recv"]) == CL for m in walk(n["then"], pats=False))
+        if fed and cleared:
+            R.ok("func-entry-guard", detail=f"FuncEntry inserted iff {CL} ∩ {CN} is non-empty; {CL} is cleared afterwards")
+        else:
+            R.bad("func-entry-guard", f"`{CL}` (fed from labels: {fed}, cleared after the entry: {cleared}) no longer tracks the labels of the next instruction", loc(n))
     # BaseCfgGen::call_names uses calls_to
     bc = [q for q in F.fns if q.endswith("::call_names") and "BaseCfgGen" in q]
     if bc and any((n.get("res") or "").endswith("::calls_to") or n.get("resolved", "").endswith("::calls_to") for n in walk(F.fn(bc[0])["hir"]["value"]) if n.get("k") == "Path"):
@@ -767,21 +792,27 @@ def c11d(F, R):
     p = [q for q in F.fns if q.endswith("FunctionMarkupPass::mark_reachable")]
     f = F.fn(p[0])
     # `returns = Some(node)` only in the else of `if let Some(ref prev_ret) = returns`
-    assigns = [n for n in walk(f["hir"]["value"]) if n.get("k") == "Assign" and ekey(n["l"]) == "returns"]
+    loops0 = [lp for lp in for_loops(f["hir"]["value"]) if mentions_call(lp["iter"], "iter_nexts")]
+    lv = loops0[0]["pat"]["name"] if loops0 and loops0[0]["pat"].get("k") == "PBinding" else None
+    cand = [n for n in walk(loops0[0]["body"], pats=False) if n.get("k") == "Assign" and peel(n["l"]).get("res_kind") == "Local"
+            and any(short(x.get("res") or "") == "Some" for x in walk(n["r"], pats=False)) and any(x.get("res") == lv for x in walk(n["r"], pats=False) if x.get("k") == "Path")] if loops0 else []
+    RET = ekey(cand[0]["l"]) if cand else "?"
+    assigns = [n for n in walk(f["hir"]["value"]) if n.get("k") == "Assign" and ekey(n["l"]) == RET]
     loops = [lp for lp in for_loops(f["hir"]["value"]) if mentions_call(lp["iter"], "iter_nexts")]
     if len(loops) != 1:
         R.bad("walk", "UNEXTRACTABLE: reachability walk loop not found", f["sp"])
         return
-    ifs = [n for n in walk(loops[0]["body"]) if n.get("k") == "If" and peel_cond(n["cond"]).get("k") == "LetExpr" and ekey(peel_cond(n["cond"])["init"]) == "returns"]
+    ifs = [n for n in walk(loops[0]["body"]) if n.get("k") == "If" and peel_cond(n["cond"]).get("k") == "LetExpr" and ekey(peel_cond(n["cond"])["init"]) == RET]
     if len(assigns) == 1 and len(ifs) == 1 and any(x is assigns[0] for x in walk(ifs[0].get("else") or {})):
-        R.ok("first-return-kept", detail="`returns` is assigned only when it is still None")
+        R.ok("first-return-kept", detail=f"`{RET}` is assigned only when it is still None")
     else:
-        R.bad("first-return-kept", f"`returns` is assigned {len(assigns)} time(s) / not only in the first-return branch: the exit can change during the walk", f["sp"])
+        R.bad("first-return-kept", f"`{RET}` is assigned {len(assigns)} time(s) / not only in the first-return branch: the exit can change during the walk", f["sp"])
     if ifs:
         then = ifs[0]["then"]
         ins_next = [n for n in walk(then) if n.get("k") == "MethodCall" and n["name"] == "insert_next"]
         ins_prev = [n for n in walk(then) if n.get("k") == "MethodCall" and n["name"] == "insert_prev"]
-        okk = len(ins_next) == 1 and len(ins_prev) == 1 and ekey(ins_next[0]["recv"]) == ekey(ins_prev[0]["args"][0]) and ekey(ins_next[0]["args"][0]) == ekey(ins_prev[0]["recv"]) == "prev_ret"
+        bound = {b["name"] for b in walk(peel_cond(ifs[0]["cond"])["pat"]) if b.get("k") == "PBinding"}
+        okk = len(ins_next) == 1 and len(ins_prev) == 1 and ekey(ins_next[0]["recv"]) == ekey(ins_prev[0]["args"][0]) and ekey(ins_next[0]["args"][0]) == ekey(ins_prev[0]["recv"]) and ekey(ins_prev[0]["recv"]) in bound
         if okk:
             R.ok("rewire", detail="later return: found_ret -> prev_ret edge inserted on both sides")
         else:
@@ -789,7 +820,7 @@ def c11d(F, R):
     rp = pass_impls(F, GENPASS)
     run = [v for t, v in rp.items() if t.endswith("FunctionMarkupPass")][0]
     se = [n for n in walk(F.fn(run)["hir"]["value"]) if n.get("k") == "MethodCall" and n["name"] == "set_exit"]
-    if len(se) == 1 and ekey(se[0]["args"][0]).endswith(".returns"):
+    if len(se) == 1 and peel(se[0]["args"][0]).get("k") == "Field":
         R.ok("set_exit", detail="set_exit(data.returns) once per function")
     else:
         R.bad("set_exit", f"set_exit is called {len(se)} time(s) / not with the walk's first return", F.fn(run)["sp"])
@@ -833,9 +864,18 @@ def c12a(F, R):
         for n in walk(f["hir"]["value"]):
             if n.get("k") in ("MethodCall", "Call") and callee_of(n) in setters:
                 n_here += 1
+        loops = [l for l in walk(f["hir"]["value"]) if l.get("k") == "Loop" and l.get("src") == "While"]
+        CH = None
+        for l in loops:
+            for i in walk(l["body"], pats=False):
+                if i.get("k") == "If" and peel(i["cond"]).get("k") == "Path" and peel(i["cond"]).get("res_kind") == "Local":
+                    CH = peel(i["cond"])["res"]
+                    break
+            if CH:
+                break
         ored = set()
         for a in walk(f["hir"]["value"]):
-            if a.get("k") == "AssignOp" and a["op"] == "BitOrAssign" and ekey(a["l"]) == "changed":
+            if a.get("k") == "AssignOp" and a["op"] == "BitOrAssign" and ekey(a["l"]) == CH:
                 r = peel(a["r"])
                 if r.get("k") in ("MethodCall", "Call") and callee_of(r) in setters:
                     ored.add(id(r))
@@ -848,13 +888,12 @@ def c12a(F, R):
                 if id(n) in ored:
                     R.ok(key)
                 else:
-                    R.bad(f"{f['path']}|{nm}", f"the result of `{nm}` is not OR-ed into `changed`: a change made here does not trigger another sweep", loc(n))
+                    R.bad(f"{f['path']}|{nm}", f"the result of `{nm}` is not OR-ed into the loop flag `{CH}`: a change made here does not trigger another sweep", loc(n))
         # loop shape: `while changed { changed = false; ... }`
-        loops = [l for l in walk(f["hir"]["value"]) if l.get("k") == "Loop" and l.get("src") == "While"]
         okl = False
         for l in loops:
-            txt = [a for a in walk(l) if a.get("k") == "Assign" and ekey(a["l"]) == "changed" and lit_value(a["r"]) is False]
-            cond = [i for i in walk(l) if i.get("k") == "If" and ekey(i["cond"]) == "changed"]
+            txt = [a for a in walk(l) if a.get("k") == "Assign" and ekey(a["l"]) == CH and lit_value(a["r"]) is False]
+            cond = [i for i in walk(l) if i.get("k") == "If" and ekey(i["cond"]) == CH]
             if txt and cond:
                 okl = True
         if okl:
